@@ -120,6 +120,7 @@ var LockKinds = []string{
 	"pk", "thresh-1of2-opaque", "thresh-2of3-nested", "hash", "above-and-pk", "after-and-pk", "anyone", "thresh-hash-or-pk",
 	"v1-2of70-high-keys", // v1-style too (appended so that the indices of the kinds above stay what stored cases use)
 	"thresh-nested-revealed", // 2 of [inner threshold, key, key nobody holds]: every spend reveals the inner threshold's leaves
+	"v1-unsatisfiable",       // no keys, 2^64-1 signatures required: a burn address; nobody can spend it, anybody can reveal it
 }
 
 // NumV1Kinds is the number of leading entries of LockKinds that are v1-style.
@@ -176,6 +177,9 @@ func MakeLock(s LockSpec) Lock {
 	case "thresh-2of3-nested":
 		inner := types.PolicyThreshold(1, []types.SpendPolicy{types.PolicyPublicKey(k2), types.PolicyAbove(1 << 40)})
 		return Lock{Kind: kind, Policy: types.PolicyThreshold(2, []types.SpendPolicy{types.PolicyPublicKey(k1), inner, types.PolicyPublicKey(k3)}), V2OK: true}
+	case "v1-unsatisfiable":
+		uc := types.UnlockConditions{SignaturesRequired: ^uint64(0)}
+		return Lock{Kind: kind, UC: &uc, Policy: types.SpendPolicy{Type: types.PolicyTypeUnlockConditions(uc)}}
 	case "thresh-nested-revealed":
 		// the third key is held by nobody, so a spend needs the inner threshold (a key and a height lock that has long
 		// passed, both revealed) and the outer key: a satisfied policy two levels deep with nothing opaque on the way
